@@ -174,9 +174,12 @@ def check_tables(ctx):
             return
         tabs[nm] = t
     fi = None
-    for (mod, nm), f in repo.module_funcs.items():
-        if mod == 'deferred' and all(t in unparse(f.node) for t in tabs):
-            fi = f
+    # the function whose own body holds the loops over the three tables (wherever a helper
+    # expansion may have copied them, the loops are statements of its body)
+    cands = [f for f in repo.functions.values() if f.module == 'deferred' and all(t in unparse(f.node) for t in tabs)]
+    cands.sort(key=lambda f: (-sum(1 for n_ in f.node.body if isinstance(n_, ast.For)), f.node.lineno))
+    if cands and any(isinstance(n_, ast.For) for n_ in cands[0].node.body):
+        fi = cands[0]
     if fi is None:
         raise Undecided('cannot find the function of deferred.py that installs the three operator tables')
     global INSTALLER
@@ -493,7 +496,7 @@ def check_compile_expr(ctx, nts):
                     coll = emits[0][0][1]
                     ok = ok and isinstance(coll, ast.Lambda) and coll.args.vararg is not None and canon(coll.body) == coll.args.vararg.arg and not coll.args.args
                 else:
-                    ok = it == 'zip(*%s[2].items())[1]' % R and len(inner) == 1 and canon(inner[0].call.args[0]) == item and emits[0][0][0] == 'len(%s[2])' % R
+                    ok = it == 'zip(*%s[2].items())[1]' % R and len(inner) == 1 and canon(inner[0].call.args[0]) == item and emits[0][0][0] in ('len(%s[2])' % R, 'len(zip(*%s[2].items())[1])' % R)
                     coll = emits[0][0][1]
                     ok = ok and isinstance(coll, ast.Lambda) and coll.args.vararg is not None and canon(coll.body) == 'dict(zip(zip(*%s[2].items())[0], %s))' % (R, coll.args.vararg.arg)
                 # order: compile(left) < loop < collector < op
@@ -547,8 +550,15 @@ def check_compile_expr(ctx, nts):
             ctx.holds(rule, al, 'as_list -> [(arity, operation)] in order', 'the program the stack machine runs', al.node.lineno, clause='c')
         else:
             ctx.violation(rule, al, 'as_list -> %s from %s' % (elt, names), 'the program must be (arity, operation) pairs', al.node.lineno, clause='c')
-    else:
+    elif comp and len(comp[0].generators) == 1 and canon(comp[0].generators[0].iter) == 'self.ops' and not comp[0].generators[0].ifs \
+            and isinstance(comp[0].generators[0].target, ast.Name) and isinstance(comp[0].elt, ast.Subscript) and isinstance(comp[0].elt.value, ast.Name) \
+            and comp[0].elt.value.id == comp[0].generators[0].target.id and isinstance(comp[0].elt.slice, ast.Slice) and comp[0].elt.slice.lower is None \
+            and isinstance(comp[0].elt.slice.upper, ast.Constant) and comp[0].elt.slice.upper.value == 2 and comp[0].elt.slice.step is None:
+        ctx.holds(rule, al, 'as_list -> [entry[:2] for entry in self.ops]', 'the (arity, operation) prefix of every entry, in order', al.node.lineno, clause='c')
+    elif comp and (comp[0].generators[0].ifs or canon(comp[0].generators[0].iter) != 'self.ops'):
         ctx.violation(rule, al, 'Operations.as_list', 'the program is filtered or reordered', al.node.lineno, clause='c')
+    else:
+        ctx.undecided(rule, al, 'Operations.as_list', 'cannot see that the program is returned entry by entry, in order', al.node.lineno, clause='c')
 
 
 def check_exec(ctx):
@@ -618,18 +628,33 @@ def check_exec(ctx):
         elif not p.raises():
             ctx.violation(rule, fi, 'returns %s' % (canon(r) if r is not None else None), 'the result must be the single remaining stack entry', fi.node.lineno, clause='d')
     # the stack is copied per call
-    first = fi.node.body[0]
-    if isinstance(first, ast.Assign) and canon(first.targets[0]) == A and canon(first.value) == 'list(%s)' % A:
-        ctx.holds(rule, fi, '%s = list(%s)' % (A, A), 'a fresh stack per evaluation', first.lineno, clause='g')
+    # the evaluation stack is a copy of the initial arguments, never the caller's list itself
+    recvs = set()
+    for p in paths:
+        for e in p.all_effects():
+            if e.kind == 'call' and isinstance(e.call.func, ast.Attribute) and e.call.func.attr in ('insert', 'append') and e.call.args \
+                    and any(canon(x.func) == '<item of %d>[1]' % l_.sub['phi'] for l_ in p.effects if l_.kind == 'loop' for x in ast.walk(e.call) if isinstance(x, ast.Call)):
+                recvs.add(canon(e.call.func.value))
+    if recvs == {'list(%s)' % A}:
+        ctx.holds(rule, fi, 'stack = list(%s)' % A, 'a fresh stack per evaluation', fi.node.lineno, clause='g')
+    elif A in recvs:
+        ctx.violation(rule, fi, 'results are pushed on %s' % A, 'the shared initial stack is not copied: evaluations interfere with each other', fi.node.lineno, clause='g')
     else:
-        ctx.violation(rule, fi, stmt_text(first), 'the shared initial stack is not copied: evaluations interfere with each other', first.lineno, clause='g')
+        first = fi.node.body[0]
+        if isinstance(first, ast.Assign) and canon(first.value) == 'list(%s)' % A:
+            ctx.holds(rule, fi, stmt_text(first), 'a fresh stack per evaluation', first.lineno, clause='g')
+        else:
+            ctx.undecided(rule, fi, 'evaluation stack %s' % sorted(recvs), 'cannot see that the stack the results are pushed on is a per-call copy of the initial arguments', fi.node.lineno, clause='g')
     cc = repo.module_funcs.get(('deferred', 'compile_expr_into_callable'))
     if cc is not None:
         rets = [r for r in ast.walk(cc.node) if isinstance(r, ast.Return)]
         ok = len(rets) == 1 and isinstance(rets[0].value, ast.Lambda)
         if ok:
             lam = rets[0].value
-            ok = canon(lam.body, {lam.args.args[0].arg: 'PKT'}).startswith('exec_compiled_expr(PKT, args, ops, *') and 'compile_expr(root_expr).as_list()' in unparse(cc.node)
+            body_t = canon(lam.body, {lam.args.args[0].arg: 'PKT'})
+            empties = {n_.targets[0].id for n_ in ast.walk(cc.node) if isinstance(n_, ast.Assign) and isinstance(n_.targets[0], ast.Name)
+                       and isinstance(n_.value, (ast.List, ast.Tuple)) and not n_.value.elts}
+            ok = any(body_t.startswith('exec_compiled_expr(PKT, %s, ops, *' % x) for x in empties | {'[]', '()'}) and 'compile_expr(root_expr).as_list()' in unparse(cc.node)
         if ok:
             ctx.holds(rule, cc, 'lambda pkt, *v, **k: exec_compiled_expr(pkt, args, compile_expr(expr).as_list(), *v, **k)', 'the callable runs the compiled program on the packet', cc.node.lineno, clause='g')
         else:
